@@ -107,6 +107,14 @@ def z1(run: Run, prog: Program):
         return out
     aliases = {}
     for st in ast.walk(ua.node):
+        if isinstance(st, ast.Assign) and len(st.targets) > 1:
+            # a = self.X = <new object>: one object under two names
+            attrs = [t for t in st.targets if isinstance(t, ast.Attribute)
+                     and isinstance(t.value, ast.Name) and t.value.id == "self"]
+            if attrs:
+                for t in st.targets:
+                    if isinstance(t, ast.Name):
+                        aliases[t.id] = "self." + attrs[0].attr
         if isinstance(st, ast.Assign):
             for tg in st.targets:
                 if isinstance(tg, (ast.Tuple, ast.List)):
